@@ -1,5 +1,5 @@
 //! C04: everything the connection layer sends is well-formed; bad sends are
-//! refused. (a) wire monitor on every datagram of the two-endpoint model;
+//! refused. (a) runs of 2100 vital chunks (the 10-bit sequence numbers come round twice) acknowledged every 1 / 50 / 500 chunks; wire monitor on every datagram of the two-endpoint model;
 //! (b) exhaustive API sequences up to a depth on one online endpoint;
 //! (c) many small chunks without flush.
 
@@ -117,7 +117,8 @@ fn check_datagram<E: Ep>(w: &mut Wire, token_mode: Option<bool>, d: &[u8]) -> Re
                 match c.vital {
                     Some((seq, _)) => {
                         let serial = (seq as usize + 1024 - 1 - w.base % 1024) % 1024;
-                        if w.vital.get(serial).map(|v| *v == c.data) != Some(true) {
+                        // (sequence numbers come round after 1024 chunks: any queued chunk with that number)
+                        if !(0..).map(|k| serial + 1024 * k).take_while(|i| *i < w.vital.len()).any(|i| w.vital[i] == c.data) {
                             return Err((
                                 "vital-chunk-differs-from-queued".into(),
                                 format!("seq {} len {}", seq, c.data.len()),
@@ -140,7 +141,31 @@ fn check_datagram<E: Ep>(w: &mut Wire, token_mode: Option<bool>, d: &[u8]) -> Re
     Ok(())
 }
 
+/// What the queued payloads are made of (set before a family is run; the families themselves
+/// run one after the other).
+static CONTENT_KIND: std::sync::atomic::AtomicUsize = std::sync::atomic::AtomicUsize::new(0);
+const CONTENT_KINDS: [&str; 6] = ["sparse", "noise", "all-ff", "all-00", "header-like", "break-even"];
+
 fn content(serial: usize, vital: bool, len: usize) -> Vec<u8> {
+    match CONTENT_KIND.load(std::sync::atomic::Ordering::Relaxed) {
+        0 => {}
+        // does not compress
+        1 => return vp_core::lcg_bytes(0x5eed ^ ((serial as u64) << 20) ^ ((vital as u64) << 40) ^ len as u64, len),
+        // the longest code words of the compression table / the shortest
+        2 => return vec![0xff; len],
+        3 => return vec![0x00; len],
+        // bytes that mean something in packet and chunk headers (connless marker, flag bits,
+        // vital bit, size and sequence bits all set), then a serial
+        4 => return (0..len).map(|i| match i % 8 { 0..=3 => 0xff, 4 => 0x80 | serial as u8, 5 => 0x40, 6 => 0x10 | vital as u8, _ => 0xf0 }).collect(),
+        // a mix tuned so that the compressed size is close to the raw size (zeros are cheap,
+        // noise is dear): the decision to compress flips with the serial and the length
+        5 => {
+            let noise = vp_core::lcg_bytes(0xbe ^ serial as u64 ^ ((len as u64) << 8), len);
+            let zeros_per_8 = 3 + (serial + len) % 4;
+            return (0..len).map(|i| if i % 8 < zeros_per_8 { 0 } else { noise[i] }).collect();
+        }
+        _ => unreachable!(),
+    }
     // mostly zero (compressible) with identifying bytes
     (0..len)
         .map(|i| match i % 16 {
@@ -315,14 +340,14 @@ fn sequences<E: Ep>(run: &Arc<Run>, variant: Variant, depth: usize) {
             }
             lc.eval();
             match run_sequence(run, &base, &seq) {
-                Ok(class) => lc.class(&format!("seq:{}:{}", variant.name(), class), || {
+                Ok(class) => lc.class(&format!("seq:{}:{}:{}", CONTENT_KINDS[CONTENT_KIND.load(std::sync::atomic::Ordering::Relaxed)], variant.name(), class), || {
                     json!(seq.iter().map(|o| op_json(o)).collect::<Vec<_>>())
                 }),
                 Err((sig, detail)) => {
                     run.violation(
                         &format!("{}:{}", variant.name(), sig),
                         &detail,
-                        json!({"api_sequence": seq.iter().map(|o| op_json(o)).collect::<Vec<_>>(), "variant": variant.name()}),
+                        json!({"api_sequence": seq.iter().map(|o| op_json(o)).collect::<Vec<_>>(), "variant": variant.name(), "payload_content": CONTENT_KINDS[CONTENT_KIND.load(std::sync::atomic::Ordering::Relaxed)]}),
                     );
                 }
             }
@@ -366,9 +391,9 @@ fn brim<E: Ep>(run: &Arc<Run>, variant: Variant) {
             let refs: Vec<&Op> = seq.iter().collect();
             lc.eval();
             match run_sequence(run, &base, &refs) {
-                Ok(class) => lc.class(&format!("brim:{}:{}", variant.name(), class), || json!(seq.iter().map(op_json).collect::<Vec<_>>())),
+                Ok(class) => lc.class(&format!("brim:{}:{}:{}", CONTENT_KINDS[CONTENT_KIND.load(std::sync::atomic::Ordering::Relaxed)], variant.name(), class), || json!(seq.iter().map(op_json).collect::<Vec<_>>())),
                 Err((sig, detail)) => {
-                    run.violation(&format!("{}:{}", variant.name(), sig), &detail, json!({"api_sequence": seq.iter().map(op_json).collect::<Vec<_>>(), "variant": variant.name(), "family": "packets filled to the brim"}));
+                    run.violation(&format!("{}:{}", variant.name(), sig), &detail, json!({"api_sequence": seq.iter().map(op_json).collect::<Vec<_>>(), "variant": variant.name(), "family": "packets filled to the brim", "payload_content": CONTENT_KINDS[CONTENT_KIND.load(std::sync::atomic::Ordering::Relaxed)]}));
                 }
             }
             lc
@@ -380,6 +405,35 @@ fn brim<E: Ep>(run: &Arc<Run>, variant: Variant) {
 /// Handshakes with a random source that draws a reserved token value (ffffffff, 00000000) one
 /// to three times in a row on either side before it behaves: connect, accept and the first data
 /// exchange are valid API calls and must neither panic nor emit anything malformed.
+/// Long runs: 2100 vital chunks, each flushed at once, acknowledged by the peer every 50 (or
+/// every 500: a long resend queue) - the 10-bit sequence numbers come round twice.
+fn long_runs<E: Ep>(run: &Arc<Run>, variant: Variant) {
+    let base = Pair::<E>::online(variant);
+    for (ack_every, flush_every) in [(50usize, 1usize), (500, 1), (50, 7), (1, 1)] {
+        let mut seq: Vec<Op> = Vec::new();
+        for i in 0..2100usize {
+            seq.push(Op::Send(1 + i % 3, true));
+            if (i + 1) % flush_every == 0 {
+                seq.push(Op::Flush);
+            }
+            if (i + 1) % ack_every == 0 {
+                seq.push(Op::Flush);
+                seq.push(Op::PeerAcksAll);
+            }
+        }
+        seq.push(Op::Flush);
+        seq.push(Op::Tick(1_000_000));
+        let refs: Vec<&Op> = seq.iter().collect();
+        run.add_evals(seq.len() as u64);
+        match run_sequence(run, &base, &refs) {
+            Ok(class) => run.class(&format!("long-run:{}:ack-every-{}:flush-every-{}:{}", variant.name(), ack_every, flush_every, &class[class.len().saturating_sub(28)..]), || json!({"vital_chunks": 2100})),
+            Err((sig, detail)) => {
+                run.violation(&format!("{}:{}", variant.name(), sig), &detail, json!({"family": "long run of 2100 vital chunks", "variant": variant.name(), "peer_acks_every": ack_every, "flush_every": flush_every}));
+            }
+        }
+    }
+}
+
 fn unlucky_random<E: Ep>(run: &Arc<Run>, variant: Variant) {
     for reserved in [[0xffu8; 4], [0u8; 4]] {
         for k in 1..=3usize {
@@ -524,6 +578,23 @@ fn main() {
     let _ = RANDOM;
     let variants = [Variant::V6T, Variant::V6N, Variant::V7];
     let depth = run.tier.pick(3, 4);
+    // other payload contents: the shorter histories and the brim family again
+    for kind in 1..CONTENT_KINDS.len() {
+        CONTENT_KIND.store(kind, std::sync::atomic::Ordering::Relaxed);
+        for v in variants {
+            match v {
+                Variant::V7 => {
+                    sequences::<libtw2_net::connection7::Connection>(&run, v, depth - 1);
+                    brim::<libtw2_net::connection7::Connection>(&run, v);
+                }
+                _ => {
+                    sequences::<libtw2_net::connection::Connection>(&run, v, depth - 1);
+                    brim::<libtw2_net::connection::Connection>(&run, v);
+                }
+            }
+        }
+    }
+    CONTENT_KIND.store(0, std::sync::atomic::Ordering::Relaxed);
     for v in variants {
         match v {
             Variant::V7 => {
@@ -531,12 +602,14 @@ fn main() {
                 many_small::<libtw2_net::connection7::Connection>(&run, v, 700);
                 brim::<libtw2_net::connection7::Connection>(&run, v);
                 unlucky_random::<libtw2_net::connection7::Connection>(&run, v);
+                long_runs::<libtw2_net::connection7::Connection>(&run, v);
             }
             _ => {
                 sequences::<libtw2_net::connection::Connection>(&run, v, depth);
                 many_small::<libtw2_net::connection::Connection>(&run, v, 700);
                 brim::<libtw2_net::connection::Connection>(&run, v);
                 unlucky_random::<libtw2_net::connection::Connection>(&run, v);
+                long_runs::<libtw2_net::connection::Connection>(&run, v);
             }
         }
     }
@@ -561,7 +634,7 @@ fn main() {
     vp_net::record(&run, &outcomes);
     run.add_evals(outcomes.iter().map(|o| o.transitions).sum());
     run.finish(
-        &format!("all API call sequences of length <= {} over a {}-operation alphabet on an online endpoint (0.6+token, 0.6, 0.7), every emitted datagram read back with the library's own reader (no error, no warning, chunk count, chunks bit-identical); n = 1..700 small chunks without flush; two and three chunks adding up to every total 1376..1406 bytes queued without a flush, then flushed / ticked / resent; handshakes with a random source that draws a reserved token value 1..3 times in a row on either side; wire monitor on every datagram of the two-endpoint model", depth, ops().len()),
+        &format!("all API call sequences of length <= {} over a {}-operation alphabet on an online endpoint (0.6+token, 0.6, 0.7), every emitted datagram read back with the library's own reader (no error, no warning, chunk count, chunks bit-identical); n = 1..700 small chunks without flush; two and three chunks adding up to every total 1376..1406 bytes queued without a flush, then flushed / ticked / resent; handshakes with a random source that draws a reserved token value 1..3 times in a row on either side; wire monitor on every datagram of the two-endpoint model; the sequences of length <= {} and the 1376..1406 family again with five other payload contents (incompressible noise, all 0xff, all 0x00, bytes that look like packet/chunk headers, a mix at the break-even point of the compression)", depth, ops().len(), depth - 1),
         true,
     );
 }
